@@ -74,11 +74,21 @@ def access_kind(n):
     return "read"
 
 
+def unevaluated(n):
+    """Inside the operand of sizeof / _Alignof / typeof: named but never evaluated, so neither a read nor a write."""
+    q = n.parent
+    while q is not None:
+        if q.k == "UnaryExprOrTypeTraitExpr":
+            return True
+        q = q.parent
+    return False
+
+
 def field_accesses(P, rec, field):
     out = []
     for f in P.all_functions():
         for n in f.walk():
-            if n.k == "MemberExpr" and n.name == field and n.rec == rec:
+            if n.k == "MemberExpr" and n.name == field and n.rec == rec and not unevaluated(n):
                 out.append((f, n, access_kind(n)))
     return out
 
@@ -87,7 +97,7 @@ def global_accesses(P, name):
     out = []
     for f in P.all_functions():
         for n in f.walk():
-            if n.k == "DeclRefExpr" and n.name == name and n.d.get("dk") == "var" and n.d.get("sc") not in ("local", "param"):
+            if n.k == "DeclRefExpr" and n.name == name and n.d.get("dk") == "var" and n.d.get("sc") not in ("local", "param") and not unevaluated(n):
                 out.append((f, n, access_kind(n)))
     return out
 
